@@ -54,9 +54,44 @@ Example c15_nonvacuous :
   exists t, tree_of 9%N prog = Some t.
 Proof. eexists. vm_compute. reflexivity. Qed.
 
+(* programs with dangling sequences attached later (also inside sequences created afterwards, so ids are NOT monotone along
+   the nesting): [well_attached] (decidable: every dangling sequence attached exactly once, after its creation, not inside
+   itself) iff the program denotes a tree; then the machine builds exactly that tree and emission is its flattening *)
+From WV Require Import Proofs.Builder2.
+Theorem c15_dangling_programs_denote_their_tree :
+  forall (entry_ty : N) (prog : list bop),
+         well_attached prog = true ->
+         exists (t : tree) (ar : IR.arena),
+           tree_of2 entry_ty prog = Some t /\
+           run_builder entry_ty prog = Ok ar /\ Den ar t /\ NoDup (tree_ids t).
+Proof. exact builder2_den_wa. Qed.
+
+Theorem c15_dangling_programs_emit_flattening :
+  forall (entry_ty : N) (prog : list bop) (t : tree) (cx : ectx) (tg : list (N * wins)) (p0 : N),
+         tree_of2 entry_ty prog = Some t ->
+         flt_tree cx [] t KEntry = Ok tg ->
+         exists (ar : IR.arena) (st : estate),
+           run_builder entry_ty prog = Ok ar /\
+           emit_body cx (S (size t)) ar 0 p0 = Ok st /\ out st = map snd tg /\ imap st = tag_positions cx p0 tg.
+Proof. exact builder2_emit. Qed.
+
+Theorem c15_well_attached_iff_denotes :
+  forall (ety : N) (prog : list bop),
+         well_attached prog = true <-> (exists t : tree, tree_of2 ety prog = Some t).
+Proof. exact well_attached_tree_of2. Qed.
+
+Theorem c15_structured_is_well_attached :
+  forall (ety : N) (prog : list bop) (t : tree), tree_of ety prog = Some t -> well_attached prog = true.
+Proof. exact structured_well_attached. Qed.
+
+
 Print Assumptions c15_build.
 Print Assumptions c15_emit.
 Print Assumptions c15_scoped_ok.
 Print Assumptions c15_branch_depth.
 Print Assumptions c15_nested.
 Print Assumptions c15_positional.
+Print Assumptions c15_dangling_programs_denote_their_tree.
+Print Assumptions c15_dangling_programs_emit_flattening.
+Print Assumptions c15_well_attached_iff_denotes.
+Print Assumptions c15_structured_is_well_attached.
